@@ -31,7 +31,7 @@ PROPS = {
         not_yet_proved=[],
     ),
     "C03": dict(
-        extra_modules=["CstModel.Proofs.Walk", "CstModel.Proofs.WalkN"],
+        extra_modules=["CstModel.Proofs.Walk", "CstModel.Proofs.WalkN", "CstModel.Proofs.TokenSpec", "CstModel.Proofs.BackN"],
         runs=runs([("red", "release")],
                   [("red", "release"), ("red", "debug"), ("red", "lasso")]),
         tags=["C03"],
@@ -41,8 +41,7 @@ PROPS = {
              "(kind, node/token, span) and handle identity is checked to be a bijection with tree positions; non-trivial = the case returned at least one "
              "element; distinct = distinct op text",
         assumptions=["the resolved wrappers are re-typings (repr(transparent)); they are the same function in the model and are tied by running every operation through both APIs"],
-        not_yet_proved=["closed forms for last_child / prev_sibling (node-only, backwards) and for first_token/last_token/next_token/prev_token (tokens_spec); both walks (with tokens: "
-                        "preorderWithTokens_spec; nodes only: preorder_nodes_spec with firstChild_path / nextSibling_path) are proved"],
+        not_yet_proved=[],
     ),
     "C04": dict(
         tags=["C04", "C01"],   # the history runs also evaluate the structural oracle: "equal in structure, kinds and text" is part of C04
